@@ -341,6 +341,13 @@ def cases(run):
             n_parse += 1
             run.count("parser-grid:gbparse")
             yield line
+    # every interval / collection constructor x every shape of parent hierarchy -----------------
+    n_hier = 0
+    for line in V.hier_lines():
+        if emit(line):
+            n_hier += 1
+            run.count("hierarchy-grid:" + line.split()[0])
+            yield line
     # plain-data constructor lines: exhaustive small scopes ---------------------------------------
     n_small = 0
     for line in _small_scopes(run):
@@ -355,7 +362,8 @@ def cases(run):
         "method_grid": {cn: {"bases": d["bases"], "members": len(d["members"]), "member_x_argument_tuples": len(d["argument_tuples"]),
                              "points": d["points"]} for cn, d in dims["call"].items()},
         "totals": {"constructor_points": n_ctor, "method_points": n_call, "operand_pair_points": n_pair,
-                   "parser_points": n_parse, "plain_data_constructor_lines": n_small},
+                   "parser_points": n_parse, "parent_hierarchy_points": n_hier,
+                   "plain_data_constructor_lines": n_small},
     }
     EXHAUSTIVE_NOTE = (f"grid A: {n_ctor} constructor x corruption points over {len(V.CLASSES)} classes; grid B: {n_call} "
                        f"member x argument-tuple points over {len(V.CALL_CLASSES)} classes (every public property/method found "
